@@ -250,4 +250,197 @@ theorem runX_good (al : AllowList) (evs : List EvX) (x : NodeX) (S : List Comple
       cases completionOfX e <;> simp
     rw [e2]; exact this.2
 
+/-! ### frame facts used by the C09 step theorems -/
+
+theorem drawX_frame (c : Cfg) (p : PSide) :
+    (p.draw c).1.vpnIps = p.vpnIps ∧ (p.draw c).1.pindexes = p.pindexes ∧ (p.draw c).1.lh = p.lh ∧
+    (p.draw c).1.wheel = p.wheel ∧ (p.draw c).1.nextObj = p.nextObj := by
+  unfold PSide.draw; split <;> exact ⟨rfl, rfl, rfl, rfl, rfl⟩
+
+theorem genIndexX_frame (c : Cfg) (f : Nat) (p : PSide) :
+    (p.genIndex c f).1.vpnIps = p.vpnIps ∧ (p.genIndex c f).1.pindexes = p.pindexes ∧ (p.genIndex c f).1.lh = p.lh ∧
+    (p.genIndex c f).1.wheel = p.wheel ∧ (p.genIndex c f).1.nextObj = p.nextObj := by
+  induction f generalizing p with
+  | zero => exact ⟨rfl, rfl, rfl, rfl, rfl⟩
+  | succ f ih =>
+    simp only [PSide.genIndex]
+    have d := drawX_frame c p
+    split
+    · have := ih (p.draw c).1
+      exact ⟨this.1.trans d.1, this.2.1.trans d.2.1, this.2.2.1.trans d.2.2.1, this.2.2.2.1.trans d.2.2.2.1,
+        this.2.2.2.2.trans d.2.2.2.2⟩
+    · exact d
+
+/-- CheckAndComplete never looks at the recorded remote -/
+theorem checkAndComplete_remote (main : HostMap) (pidx : List (Nat × Nat)) (hi : HostInfo) (r : Option UNode) :
+    checkAndComplete main pidx { hi with remote := r } = checkAndComplete main pidx hi := rfl
+
+/-- the responder's candidate tunnel for a relayed packet is the direct one without the remote; the pending side
+differs only in the lighthouse cache (nothing learned) -/
+theorem prepareResponderX_relayed (cfg : Cfg) (p : PSide) (u : UNode) (r : Addr) (ru : UNode) (pa : Addr) (pkt : Handle)
+    (c : Completed) (v : Nat) :
+    let d := p.prepareResponderX cfg (.direct u) pkt c v
+    let y := p.prepareResponderX cfg (.relayed r ru pa) pkt c v
+    y.2.1 = { d.2.1 with remote := none } ∧ y.2.2 = d.2.2 ∧ y.1.vpnIps = d.1.vpnIps ∧ y.1.pindexes = d.1.pindexes ∧
+    y.1.nextObj = d.1.nextObj ∧ y.1.nextH = d.1.nextH ∧ y.1.idxQ = d.1.idxQ ∧ y.1.idxCtr = d.1.idxCtr ∧
+    y.1.wheel = d.1.wheel ∧ d.2.1.remote = some u ∧ d.2.1.vpnAddrs = c.certAddrs := by
+  exact ⟨rfl, rfl, rfl, rfl, rfl, rfl, rfl, rfl, rfl, rfl, rfl⟩
+
+/-- prepareResponderX for a direct packet is the base model's prepareResponder -/
+theorem prepareResponderX_direct (cfg : Cfg) (p : PSide) (u : UNode) (pkt : Handle) (c : Completed) (v : Nat) :
+    p.prepareResponderX cfg (.direct u) pkt c v = p.prepareResponder cfg u pkt c v := rfl
+
+theorem initiatorHostInfoX_direct (hh : Pending) (u : UNode) (c : Completed) :
+    initiatorHostInfoX hh (.direct u) c = initiatorHostInfo hh u c := rfl
+
+/-! ### relayed handshake messages: shape of one step -/
+
+theorem insertRelayTo_relays (x x' : NodeX) (id : Nat) (r : Addr) (h : x'.relays = x.relays) :
+    (x'.insertRelayTo id r).relays = (x.insertRelayTo id r).relays := by
+  unfold NodeX.insertRelayTo NodeX.relaysOf
+  rw [h]
+  split <;> simp [h]
+
+theorem startHandshake_lh_irrel (cfg : Cfg) (p p' : PSide) (a : Addr) (cb : Pending → Pending)
+    (hv : p'.vpnIps = p.vpnIps) (hp : p'.pindexes = p.pindexes) (hn : p'.nextObj = p.nextObj) (hw : p'.wheel = p.wheel) :
+    (p'.startHandshake cfg a cb).vpnIps = (p.startHandshake cfg a cb).vpnIps ∧
+    (p'.startHandshake cfg a cb).pindexes = (p.startHandshake cfg a cb).pindexes ∧
+    (p'.startHandshake cfg a cb).nextObj = (p.startHandshake cfg a cb).nextObj ∧
+    (p'.startHandshake cfg a cb).wheel = (p.startHandshake cfg a cb).wheel := by
+  unfold PSide.startHandshake PSide.setPending
+  rw [hv]
+  split <;> simp [hv, hp, hn, hw]
+
+theorem mem_relaysOf_insertRelayTo (x : NodeX) (id : Nat) (r : Addr) : r ∈ (x.insertRelayTo id r).relaysOf id := by
+  unfold NodeX.insertRelayTo
+  split
+  · rename_i h; simpa using h
+  · simp [NodeX.relaysOf, alookup_ainsert]
+
+theorem relayed_stage1_shape (al : AllowList) (x : NodeX) (r : Addr) (ru : UNode) (pa : Addr) (pkt : Handle)
+    (res : Option Completed) (rv now : Nat) :
+    let y := x.beginHandshake al (.relayed r ru pa) pkt res rv now
+    -- nothing installed and nothing or the cached reply sent through the relay, or a tunnel WITHOUT a remote installed and
+    -- its reply sent through the relay, which is recorded as a relay of that tunnel
+    (y.1.n.main = x.n.main ∧ (y.2.tx = [] ∨ ∃ ex h, y.2.tx = [.hsVia h r ru] ∧ ex.pkt2 = some h ∧ r ∈ y.1.relaysOf ex.id ∧
+        ∃ a, ex ∈ x.n.main.getList a)) ∨
+    (∃ hi c, res = some c ∧ hi.vpnAddrs = c.certAddrs ∧ hi.remote = none ∧ y.1.n.main = x.n.main.addHostInfo hi ∧
+        y.2.tx = [.hsVia (hi.pkt2.getD 0) r ru] ∧ r ∈ y.1.relaysOf hi.id) := by
+  intro y
+  have hy : y = x.beginHandshake al (.relayed r ru pa) pkt res rv now := rfl
+  unfold NodeX.beginHandshake at hy
+  simp only [Via.allowedUnknown, Via.allowedAll, Bool.not_true, Bool.false_eq_true, ↓reduceIte, Bool.or_false] at hy
+  cases res with
+  | none => rw [hy]; exact Or.inl ⟨rfl, Or.inl rfl⟩
+  | some c =>
+    dsimp only at hy
+    cases hok : peerCertOk x.n.cfg c with
+    | false =>
+      simp only [hok, Bool.not_false, ↓reduceIte] at hy
+      rw [hy]; exact Or.inl ⟨rfl, Or.inl rfl⟩
+    | true =>
+      simp only [hok, Bool.not_true, Bool.false_eq_true, ↓reduceIte] at hy
+      generalize hprep : x.n.p.prepareResponderX x.n.cfg (.relayed r ru pa) pkt c rv = pr at hy
+      obtain ⟨p, hi, rid⟩ := pr
+      have hva : hi.vpnAddrs = c.certAddrs := by
+        have := prepareResponderX_vpnAddrs x.n.cfg x.n.p (.relayed r ru pa) pkt c rv
+        rw [hprep] at this; exact this
+      have hrm : hi.remote = none := by
+        have : (x.n.p.prepareResponderX x.n.cfg (.relayed r ru pa) pkt c rv).2.1.remote = none := rfl
+        rw [hprep] at this; exact this
+      dsimp only at hy
+      cases hcac : checkAndComplete x.n.main p.pindexes hi with
+      | none =>
+        rw [hcac] at hy
+        dsimp only [NodeX.sendResponse] at hy
+        rw [hy]
+        exact Or.inr ⟨hi, c, rfl, hva, hrm, by simp [insertRelayTo_n], rfl, mem_relaysOf_insertRelayTo _ _ _⟩
+      | some e =>
+        rw [hcac] at hy
+        cases e with
+        | alreadySeen ex =>
+          dsimp only at hy
+          have hex : ∃ a, ex ∈ x.n.main.getList a := by
+            unfold checkAndComplete at hcac
+            dsimp only at hcac
+            split at hcac
+            · rename_i e he
+              split at he
+              · split at he
+                · rename_i t ht
+                  simp only [Option.some.injEq] at he
+                  subst he
+                  simp only [Option.some.injEq, CacErr.alreadySeen.injEq] at hcac
+                  subst hcac
+                  exact ⟨_, List.mem_of_find?_eq_some ht⟩
+                · split at he
+                  · simp only [Option.some.injEq] at he; subst he; simp at hcac
+                  · simp at he
+              · simp at he
+            · split at hcac
+              · simp at hcac
+              · split at hcac <;> simp at hcac
+          cases hp2 : ex.pkt2 with
+          | none => rw [hp2] at hy; rw [hy]; exact Or.inl ⟨rfl, Or.inl rfl⟩
+          | some q =>
+            rw [hp2] at hy
+            dsimp only [NodeX.sendResponse] at hy
+            rw [hy]
+            exact Or.inl ⟨by simp [insertRelayTo_n], Or.inr ⟨ex, q, rfl, hp2, mem_relaysOf_insertRelayTo _ _ _, hex⟩⟩
+        | existing ex => rw [hy]; exact Or.inl ⟨rfl, Or.inl rfl⟩
+        | collision => rw [hy]; exact Or.inl ⟨rfl, Or.inl rfl⟩
+
+theorem relayed_stage2_shape (al : AllowList) (x : NodeX) (r : Addr) (ru : UNode) (pa : Addr) (idx : Nat) (res : S2Res) :
+    let y := x.continueHandshake al (.relayed r ru pa) idx res
+    (y.1.n.main = x.n.main ∨
+      ∃ hh c, res = .completed c ∧ (alookup idx x.n.p.pindexes).bind x.n.p.pendingById = some hh ∧
+        y.1.n.main = x.n.main.addHostInfo (initiatorHostInfoX hh (.relayed r ru pa) c) ∧
+        (initiatorHostInfoX hh (.relayed r ru pa) c).remote = none ∧
+        (initiatorHostInfoX hh (.relayed r ru pa) c).vpnAddrs = c.certAddrs ∧ r ∈ y.1.relaysOf hh.id) ∧
+    ∀ t ∈ y.2.tx, (∃ len r' ru', t = .msgVia len r' ru') ∨ (∃ r' ru', t = .closeVia r' ru') := by
+  intro y
+  have hy : y = x.continueHandshake al (.relayed r ru pa) idx res := rfl
+  unfold NodeX.continueHandshake at hy
+  dsimp only at hy
+  simp only [Via.allowedUnknown, Via.allowedAll, Bool.not_true, Bool.false_eq_true, ↓reduceIte] at hy
+  cases hl : (alookup idx x.n.p.pindexes).bind x.n.p.pendingById with
+  | none => rw [hl] at hy; rw [hy]; exact ⟨Or.inl rfl, by simp⟩
+  | some hh =>
+    rw [hl] at hy
+    dsimp only at hy
+    cases hr : hh.ready with
+    | false => simp only [hr, Bool.not_false, ↓reduceIte] at hy; rw [hy]; exact ⟨Or.inl rfl, by simp⟩
+    | true =>
+      simp only [hr, Bool.not_true, Bool.false_eq_true, ↓reduceIte] at hy
+      cases res with
+      | err failed => cases failed <;> simp only [Bool.false_eq_true, ↓reduceIte] at hy <;> rw [hy] <;> exact ⟨Or.inl rfl, by simp⟩
+      | completed c =>
+        dsimp only at hy
+        cases hs : (c.certAddrs.any fun a => x.n.cfg.myAddrs.contains a) with
+        | true => simp only [hs, ↓reduceIte] at hy; rw [hy]; exact ⟨Or.inl (by simp [insertRelayTo_n]), by simp⟩
+        | false =>
+          cases hw : c.certAddrs.contains hh.vpnAddr with
+          | false =>
+            simp only [hs, hw, Bool.false_eq_true, ↓reduceIte, Bool.not_false] at hy
+            rw [hy]
+            refine ⟨Or.inl (by simp [insertRelayTo_n]), ?_⟩
+            intro t ht
+            dsimp only at ht
+            split at ht
+            · simp only [List.mem_singleton] at ht; exact Or.inr ⟨_, _, ht⟩
+            · simp at ht
+          | true =>
+            simp only [hs, hw, Bool.false_eq_true, ↓reduceIte, Bool.not_true] at hy
+            rw [hy]
+            refine ⟨Or.inr ⟨hh, c, rfl, rfl, by simp [insertRelayTo_n], rfl, rfl, ?_⟩, ?_⟩
+            · exact mem_relaysOf_insertRelayTo _ _ _
+            · intro t ht
+              dsimp only at ht
+              split at ht
+              · simp only [List.mem_map] at ht
+                obtain ⟨q, _, e⟩ := ht
+                exact Or.inl ⟨_, _, _, e.symm⟩
+              · simp at ht
+
+
 end Nebula.Lemmas.HsManager
